@@ -52,6 +52,17 @@ def validate_output_conflicts(
     if not contested_outputs:
         return
 
+    # A node that lists one output name twice is neither mutex nor ordered with itself
+    for output, sources in contested_outputs.items():
+        for name in sources:
+            if sources.count(name) > 1:
+                raise GraphConfigError(
+                    f"Node '{name}' declares output '{output}' more than once\n\n"
+                    f"  -> Each value a node returns needs its own output name\n\n"
+                    f"How to fix:\n"
+                    f"  Give the outputs distinct names"
+                )
+
     if explicit_edges:
         # Explicit mode: trust the declared topology directly
         for output, sources in contested_outputs.items():
